@@ -476,6 +476,9 @@ class SymMV:
             return self.algebra
         if name in ('items', 'keys', 'values'):
             return getattr(self, name)
+        if name == 'type_number':
+            # an int determined by the *set* of stored blades (which blades, not their order)
+            return SInt(z3.Int(self.name + '_type_number'))
         raise OutOfSubset(f'multivector.{name} is not modelled in this contract')
 
 
